@@ -71,7 +71,7 @@ def vm_expected(opts, chunks):
 def run(ctx):
     r = ctx.rng
     oldlim = limit_memory(8 << 30)
-    nsess = ctx.n(70, 900)
+    nsess = ctx.n(100, 900)
     for si in range(nsess):
         kind = r.choice(["base", "lib", "lib", "cli", "vmware"])
         opts = {}
@@ -127,11 +127,11 @@ def run(ctx):
                 tail.append((sess.bell(), ("bell",)))
             msgs += tail
             ctx.count("sessions_with_cursor_under_updates")
-        if si % 11 == 5 and kind != "vmware":
+        if si % 5 == 3 and kind != "vmware":
             # handshakes that end in a refusal or a failed authentication (reason of any length, also empty), followed by
             # bytes the client must not interpret: the same under every chunking
-            fver = r.choice([(3, 3), (3, 7), (3, 8)])
-            reason = bytes(r.randrange(256) for _ in range(r.choice([0, 0, 1, 5, 40])))
+            fver = r.choice([(3, 3), (3, 7), (3, 8), (3, 8)])
+            reason = bytes(r.randrange(256) for _ in range(r.choice([0, 1, 5, 40, 40])))
             k = r.random()
             if fver == (3, 3):
                 body = [struct.pack("!I", 0), struct.pack("!I", len(reason)), reason] if k < .5 or "password" not in opts else \
